@@ -383,3 +383,104 @@ class ReadSubplane3d(ReadSubplane):
 
 
 register(ReadSubplane3d, 'read.py::SgzReader.read_subplane', ['C14'], CFG_DEFAULT[:2], modes=('file',), tag='3d')
+
+
+# ---------------------------------------------------------------------------------------------
+# traces
+
+class GetTrace(ReadContract):
+    """get_trace(index[, min_sample_id, max_sample_id]) on a regular 3-D file"""
+    window = 'none'          # none | both | lo | hi
+    modular_use = True
+
+    def inputs(self, c):
+        g, rd = self.reader(c)
+        d = dict(self=rd, _g=g, index=c.sym_int('index', name='index'), min_sample_id=None, max_sample_id=None,
+                 override_unstructured_mapping=False)
+        if self.window in ('both', 'lo'):
+            d['min_sample_id'] = c.sym_int('lo', name='min_sample_id')
+        if self.window in ('both', 'hi'):
+            d['max_sample_id'] = c.sym_int('hi', name='max_sample_id')
+        return d
+
+    def bounds(self, g, a):
+        lo = 0 if a.get('min_sample_id') is None else a['min_sample_id']
+        hi = g.nZ if a.get('max_sample_id') is None else a['max_sample_id']
+        return lo, hi
+
+    def ok(self, g, a):
+        lo, hi = self.bounds(g, a)
+        ntr = g.nT if g.two_d else mul(g.nI, g.nX)
+        return And(in_range(a['index'], 0, ntr), ge(lo, 0), lt(lo, hi), le(hi, g.nZ))
+
+    def raises(self, c, a):
+        g = a['self'].geo
+        return {'IndexError': Not(self.ok(g, a))}
+
+    def coords(self, g, a):
+        if g.two_d:
+            return 0, a['index']
+        return fdiv(a['index'], g.nX), mod(a['index'], g.nX)
+
+    def result(self, c, a):
+        g = a['self'].geo
+        lo, hi = self.bounds(g, a)
+        il, xl = self.coords(g, a)
+        n = sub(hi, lo)
+        return SArray((n,), lambda idx: O.Vpad(g, il, xl, add(lo, idx[0])), 'float32')
+
+    def trace_reads(self, g, a):
+        lo, hi = self.bounds(g, a)
+        il, xl = self.coords(g, a)
+        if g.two_d:
+            if g.layout == 'default':
+                return [([], lambda: self.data_off(g, mul(fdiv(xl, g.b[1]), g.G[2])), mul(BLK, g.G[2]))]
+            tb = mul(g.b[1], fdiv(xl, g.b[1]))
+            blocks = [1, g.G[2]]
+            return [(blocks, lambda kx, kz: self.data_off(g, add(mul(add(fdiv(xl, g.b[1]), kx), g.G[2]), kz)), BLK)]
+        blo = [mul(g.b[0], fdiv(il, g.b[0])), mul(g.b[1], fdiv(xl, g.b[1])), mul(g.b[2], fdiv(lo, g.b[2]))]
+        bhi = [add(blo[0], g.b[0]), add(blo[1], g.b[1]), mul(g.b[2], fdiv(add(hi, g.b[2] - 1), g.b[2]))]
+        return self.box_reads(g, blo, bhi)
+
+    def effects(self, c, a, result):
+        g = a['self'].geo
+        if F(F(a['self'], 'loader'), 'compressed_volume') is not None:
+            return
+        for counts, off_fn, n in self.trace_reads(g, a):
+            ks = []
+            for cnt in counts:
+                k = c.fresh_int('gt_k')
+                c.assume_raw(z3.And(k >= 0, k < zint(cnt)))
+                c.nonneg_ids.add(k.get_id())
+                ks.append(k)
+            IO.log_read(c, BM.K_FILE, off_fn(*[SInt(k) for k in ks]), n, extra_loopvars=[(k, cnt) for k, cnt in zip(ks, counts)])
+
+    def post(self, c, a, result):
+        if c.mode != 'verify':
+            return
+        g = a['self'].geo
+        lo, hi = self.bounds(g, a)
+        il, xl = self.coords(g, a)
+        if isinstance(result, SArray):
+            check_array(c, result, (sub(hi, lo),))
+            e = O.skolem_index(c, (sub(hi, lo),))
+            c.ensure(result.fn(e) == O.Vpad(g, il, xl, add(lo, e[0])), 'elem')
+        else:
+            # numpy.squeeze of a length-1 window is a 0-d array holding the one sample
+            c.ensure(eq(sub(hi, lo), 1), 'scalar_only_for_length_1')
+            c.ensure(mk_bool(isinstance(result, STok)) and result == O.Vpad(g, il, xl, lo), 'elem')
+        self.expect_reads(c, g, self.trace_reads(g, a))
+
+
+for _w in ('none', 'both', 'lo', 'hi'):
+    _cls = type('GetTrace_' + _w, (GetTrace,), dict(window=_w))
+    register(_cls, 'read.py::SgzReader.get_trace', ['C02', 'C07', 'C14'], ALL3, modes=('file',) if _w != 'none' else ('file', 'preload'), tag='win:' + _w)
+
+
+class GetTrace2d(GetTrace):
+    two_d = True
+
+
+for _w in ('none', 'both'):
+    _cls = type('GetTrace2d_' + _w, (GetTrace2d,), dict(window=_w))
+    register(_cls, 'read.py::SgzReader.get_trace', ['C02', 'C07', 'C09', 'C14'], ALL2, modes=('file',), tag='2d+win:' + _w)
